@@ -198,7 +198,16 @@ func dataflowCase(c *Ctx, focus string) {
 		cls = "mrp-panicked"
 		c.Res.Class = cls
 	}
+	if strings.Contains(r.outBuf.String(), "No heartbeat detected") && r.Cfg.JobFaults == nil {
+		// the schedule starved a job for an hour of simulated time: mrp gave it up;
+		// that is a failure of the simulator's making, and these profiles judge
+		// runs without failures
+		cls = "heartbeat-starved"
+		c.Res.Class = cls
+	}
 	switch cls {
+	case "heartbeat-starved":
+		c.Res.Notes = append(c.Res.Notes, "a job was starved past the heartbeat timeout by the schedule; run not judged")
 	case "complete":
 		nBefore := len(r.Violations)
 		ev := r.CheckDataflow()
